@@ -48,7 +48,8 @@ META = {
         "(or the copy), not some other default. "
         "R6: __post_init__ calls validate_fields unconditionally; validate_fields applies validate_field to the current value of every field on every iteration "
         "(a value-dependent skip is a violation); copy re-validates through dc.replace/the constructor; both front ends build the global config through the "
-        "constructor inside a handler covering TypeError and ValueError with a default fallback; everything a custom validator can raise on a configured value "
+        "constructor inside a handler covering TypeError and ValueError with a default fallback - the handler is looked for around the constructor inside the builder or "
+        "around every call of the builder anywhere in the package, so moving that call into a helper method keeps the rule deciding; everything a custom validator can raise on a configured value "
         "is covered by both handlers; the Sphinx builder-inited handler binds env.myst_config on every normal path; registering and reading loops use the same "
         "omit filter. "
         "R7: no raise-condition conjoins `x is not a <container>` with a type test on x's members. "
@@ -1837,6 +1838,13 @@ CFG_FACTORIES = ("MdParserConfig", "config_cls", "create_myst_config", "merge_fi
 
 def _cfg_names(f: FunctionInfo, validators: dict[str, FunctionInfo]) -> set[str]:
     names: set[str] = set()
+    factories = set(CFG_FACTORIES)
+    mods = getattr(f.module, "_c13_factories", None)
+    if mods is None:
+        # local functions / methods annotated to return the config class are factories too
+        mods = {g.name for g in f.module.functions.values() if not g.is_lambda and getattr(g.node, "returns", None) is not None and unparse(g.node.returns).strip("'\"").endswith(CONFIG_CLS)}
+        f.module._c13_factories = mods  # type: ignore[attr-defined]
+    factories |= mods
     node = f.node
     if not f.is_lambda:
         a = node.args
@@ -1855,7 +1863,7 @@ def _cfg_names(f: FunctionInfo, validators: dict[str, FunctionInfo]) -> set[str]
                 tgt, val = n.target.id, n.value
             else:
                 continue
-            if _is_cfg(val, names) or (isinstance(val, ast.Call) and ((dotted(val.func) or "").rsplit(".", 1)[-1] in CFG_FACTORIES or (isinstance(val.func, ast.Attribute) and val.func.attr == "copy" and _is_cfg(val.func.value, names)))):
+            if _is_cfg(val, names) or (isinstance(val, ast.Call) and ((dotted(val.func) or "").rsplit(".", 1)[-1] in factories or (isinstance(val.func, ast.Attribute) and val.func.attr == "copy" and _is_cfg(val.func.value, names)))):
                 names.add(tgt)
     return names
 
@@ -2329,10 +2337,21 @@ def r6_entry_points_funnel(corpus: Corpus, rep: Report, tier: str):
         raise Unsupported("MdParserConfig.copy not understood")
     # (d) the two front ends
     front = [
-        ("docutils", corpus.func("parsers.docutils_:Parser.parse"), corpus.func("parsers.docutils_:create_myst_config"), corpus.func("parsers.docutils_:create_myst_settings_spec")),
-        ("sphinx", corpus.func("sphinx_ext.main:create_myst_config"), corpus.func("sphinx_ext.main:create_myst_config"), corpus.func("sphinx_ext.main:setup_sphinx")),
+        ("docutils", corpus.func("parsers.docutils_:create_myst_config"), corpus.func("parsers.docutils_:create_myst_settings_spec")),
+        ("sphinx", corpus.func("sphinx_ext.main:create_myst_config"), corpus.func("sphinx_ext.main:setup_sphinx")),
     ]
-    for tag, outer, builder, registrar in front:
+    handlers: list[tuple[str, ast.ExceptHandler]] = []
+
+    def try_around(c: ast.AST) -> ast.Try | None:
+        node: ast.AST = c
+        for anc in ancestors(c):
+            if isinstance(anc, (ast.FunctionDef, ast.AsyncFunctionDef, ast.Lambda)):
+                return None
+            if isinstance(anc, ast.Try) and anc.handlers and any(node is s_ or any(node is x for x in ast.walk(s_)) for s_ in anc.body):
+                return anc
+        return None
+
+    for tag, builder, registrar in front:
         # constructor call with **values
         ctor_names = {CONFIG_CLS}
         a = builder.node.args
@@ -2346,22 +2365,26 @@ def r6_entry_points_funnel(corpus: Corpus, rep: Report, tier: str):
             raise Unsupported(f"{builder.fq}: no MdParserConfig(**values) call found")
         rep.ok("C13.R6", k, builder.module.site(ctors[0]), short(ctors[0], 40))
         # guarded by a handler that covers the validators' exception classes and falls back to the defaults
-        if outer.fq == builder.fq:
-            guarded_calls = ctors
+        # (the handler is either around the constructor inside the builder, or around every call of the builder - wherever that call lives)
+        if all(try_around(c) is not None for c in ctors):
+            guarded_calls = [(builder, c) for c in ctors]
         else:
-            guarded_calls = [c for c in outer.local_nodes() if isinstance(c, ast.Call) and dotted(c.func) and corpus.find_function(outer.module.resolve(dotted(c.func))) is not None and corpus.find_function(outer.module.resolve(dotted(c.func))).fq == builder.fq]
+            guarded_calls = []
+            for g in corpus.all_functions():
+                if g.is_lambda or g.fq == builder.fq:
+                    continue
+                for c in g.local_nodes():
+                    if isinstance(c, ast.Call) and dotted(c.func):
+                        tgt = corpus.find_function(g.module.resolve(dotted(c.func)))
+                        if tgt is not None and tgt.fq == builder.fq:
+                            guarded_calls.append((g, c))
             if not guarded_calls:
-                raise Unsupported(f"{outer.fq} does not call {builder.qualname}")
-        for c in guarded_calls:
+                raise Unsupported(f"no call of {builder.fq} found in the package")
+        for outer, c in guarded_calls:
             k = f"{outer.fq}|{short(c, 50)}|invalid global config is reported, defaults used"
-            tr = None
-            node: ast.AST = c
-            for anc in ancestors(c):
-                if isinstance(anc, (ast.FunctionDef, ast.Lambda)):
-                    break
-                if isinstance(anc, ast.Try) and anc.handlers and any(node is s or any(node is x for x in ast.walk(s)) for s in anc.body):
-                    tr = anc
-                    break
+            tr = try_around(c)
+            if tr is not None:
+                handlers += [(tag, h) for h in tr.handlers]
             if tr is None:
                 rep.violation("C13.R6", k, outer.module.site(c), f"the {tag} front end builds the global configuration outside any try: an invalid value aborts instead of being reported")
                 continue
@@ -2413,12 +2436,7 @@ def r6_entry_points_funnel(corpus: Corpus, rep: Report, tier: str):
         else:
             rep.ok("C13.R6", k, builder.module.site(nb), f"both keep fields without {cb!r} in metadata['omit']")
     # (e) what a validator can raise on a config-controlled value is covered by every front-end handler
-    handlers: list[tuple[str, ast.ExceptHandler]] = []
-    for tag, outer, builder, registrar in front:
-        for tr in (n for n in outer.local_nodes() if isinstance(n, ast.Try)):
-            if any(isinstance(x, ast.Call) and (dotted(x.func) or "").rsplit(".", 1)[-1] in (CONFIG_CLS, "config_cls", "create_myst_config") and (x.keywords or x.args) for s in tr.body for x in ast.walk(s)):
-                handlers += [(tag, h) for h in tr.handlers]
-    if len(handlers) < 2:
+    if len({t for t, _ in handlers}) < 2:
         raise Unsupported("front-end handlers around the global constructor not found")
 
     def uncovered(cls: str) -> list[str]:
@@ -2659,10 +2677,16 @@ def mutants(corpus: Corpus):
     flt = _omit_filters(f)
     if flt:
         out.append(Mutant("c13-docutils-omit-filter-mismatch", "C13.R6", du.rel, splice(du.src, flt[0][2].left, '"sphinx"'), expect="omit filter"))
-    f = du.func("Parser.parse")
-    tr = find_node(f, lambda n: isinstance(n, ast.Try) and any("create_myst_config" in unparse(s) for s in n.body))
-    if tr is not None:
-        out.append(Mutant("c13-docutils-global-config-try-dropped", "C13.R6", du.rel, unwrap_try(f, tr), expect="outside any try"))
+    for f in du.functions.values():
+        if f.is_lambda:
+            continue
+        tr = find_node(f, lambda n: isinstance(n, ast.Try) and any("create_myst_config(" in unparse(s) for s in n.body))
+        if tr is not None:
+            out.append(Mutant("c13-docutils-global-config-try-dropped", "C13.R6", du.rel, unwrap_try(f, tr), expect="outside any try"))
+            h0 = tr.handlers[0]
+            if h0.type is not None:
+                out.append(Mutant("c13-docutils-global-config-handler-narrowed", "C13.R6", du.rel, splice(du.src, h0.type, "TypeError"), expect="does not cover"))
+            break
     sm = corpus.mod("sphinx_ext.main")
     f = sm.func("create_myst_config")
     tr = find_node(f, lambda n: isinstance(n, ast.Try))
